@@ -142,6 +142,15 @@ def _check_varint_writer(ctx):
             same_term(ob, v, exp, 'CompactSize of a value in %s' % cell, fi.where)
 
 
+def _read_known(obr, r, n, where):
+    """a read whose size (or data) the evaluator could not compute cannot be judged: UNDECIDED, not a violation"""
+    if (isinstance(n, tuple) and T.opaques(n)) or (isinstance(r, tuple) and T.opaques(r)):
+        obr.undecided('a stream read whose size is not computable by the evaluator (%s): its length check cannot be judged'
+                      % T.show(n, maxdepth=3), where)
+        return False
+    return True
+
+
 def _read_ok(ev, r, n, env_terms, known):
     """A stream read of n bytes is length-checked if the fact LEN(r) == n holds on the exit, or if n == 1
     and r is only ever indexed (IndexError on a short read)."""
@@ -190,6 +199,8 @@ def _check_varint_reader(ctx):
                 for conds, leaf in normal_leaves(v):
                     known = known_at(f, conds)
                     for r, n, fq, line in ev.reads:
+                        if not _read_known(obr, r, n, '%s:%d' % (fi.module.relpath, line)):
+                            continue
                         obr.require(_read_ok(ev, r, n, [leaf], known),
                                     'stream read of %s byte(s) is used without a length check (a short read at end of '
                                     'input is silently accepted)' % T.show(n),
@@ -402,6 +413,8 @@ def _check_script_reader(ctx):
                 leaf_terms = [x for x in (cm, cnt) if x is not None]
                 known = known_at(facts2, ())
                 for r, n, fq, line in ev.reads:
+                    if not _read_known(obr, r, n, '%s:%d' % (fi.module.relpath, line)):
+                        continue
                     obr.require(_read_ok(ev, r, n, leaf_terms, known),
                                 'stream read of %s byte(s) is used without a length check (input that ends early is '
                                 'silently accepted)' % T.show(n, maxdepth=3),
